@@ -49,6 +49,21 @@ class PITBatchNorm2d(nn.BatchNorm2d, PITModule):
                 self.weight.copy_(bn.weight)
                 self.bias.copy_(bn.bias)
 
+    def forward(self, input: torch.Tensor) -> torch.Tensor:
+        """Normalizes the input and keeps at zero the features pruned upstream (which export()
+        removes), so that the layers reading this output see what they will see after export
+
+        :param input: the input activations tensor
+        :type input: torch.Tensor
+        :return: the output activations tensor
+        :rtype: torch.Tensor
+        """
+        y = super(PITBatchNorm2d, self).forward(input)
+        calc = getattr(self, '_input_features_calculator', None)
+        if calc is not None:
+            y = y * calc.features_mask.reshape([1, -1] + [1] * (y.dim() - 2))
+        return y
+
     @staticmethod
     def autoimport(n: fx.Node, mod: fx.GraphModule, fm: PITFeaturesMasker, fold_bn: bool):
         """Create a new fx.Node relative to a PITBatchNorm2d layer, starting from the fx.Node
